@@ -92,6 +92,7 @@ class Check(PropertyCheck):
         if rng.random() < 0.4:
             lines.append("fcomp all")          # a composite that contains the first composite (a multi-column component)
         lines.append("fsnap")
+        lines.append("fspec")
         setup = [l for l in lines if l.startswith(("fobs", "fcomp"))]
         tr = gen.Tracker(jobs)
         n_acc = 0
@@ -99,7 +100,7 @@ class Check(PropertyCheck):
             j, p, m = gen.gen_valid_request(rng, tr)
             tr.take(j)
             n_acc += 1
-            lines += [f"disp {j} {p} {m}", "fsnap"]
+            lines += [f"disp {j} {p} {m}", "fsnap", "fspec"]
         if rng.random() < 0.3:
             # a second dispatcher with its own observers on the SAME instance object: nothing may leak through the instance
             lines += ["redisp"] + setup + ["fsnap"]
